@@ -352,10 +352,10 @@ class ShaclSerializer(object):
         if self._wikidata_annotation:
             return self._produce_wikidata_annotation_output()
         # destination = None if self._string_return else self._target_file
+        if self._target_file is not None:
+            self._g_shapes.serialize(destination=self._target_file, format="turtle")
         if self._string_return:
             return self._g_shapes.serialize(format="turtle")
-        else:
-            self._g_shapes.serialize(destination=self._target_file, format="turtle")
 
 
     def _produce_wikidata_annotation_output(self):
